@@ -179,7 +179,15 @@ def judgeCols (env : Env) (s s' : State) (op : Op) : String :=
       match absM env p s with
       | (.ok k, _) => (match entriesOf s k with
         | .ok (rootE, snap) =>
-          let cls := "-"
+          -- sorted traversals that follow links order siblings by the name of the FOLLOWED path: two siblings
+          -- with the same followed name are a tie whose order (with everything below them) is arbitrary
+          let tie : Bool := r.follow && snap.any (fun kv =>
+            match kv.2.files with
+            | some ns =>
+              let names := ns.filterMap (fun n => (alLookup (kv.1 ++ [n]) snap).map (fun c => ((c.doFollow true).path.getLast?).getD []))
+              decide (names.eraseDups.length < names.length)
+            | none => false)
+          let cls := if tie then "follow_name_tie" else "-"
           if r.follow then
             -- recursive walk specification with link following and loop detection (Spec/WalkFollow.lean)
             let (es, err) := Spec.entriesSpecF snap r.opts rootE
